@@ -501,3 +501,55 @@ func onlyTopLevelAwaits(p *jsref.Program) bool {
 	})
 	return only
 }
+
+// topLevelAwaitLoweredToYield is the signature + confirmation of C14-top-level-await-lowered-to-yield:
+// `top-level-await` is among the true overrides, the configuration lowers async functions (one-line probe),
+// the input has a top-level await; the output does not parse; and a mechanical repair that turns `yield`
+// tokens back into `await` — only the token at which jsref's parse stops (or the one right before it), one
+// at a time — yields a program that jsref and V8 accept, in which every repaired token is an await outside
+// any function, and whose census is within the target. Anything else that does not parse stays a violation.
+func topLevelAwaitLoweredToYield(c Case, in *jsref.Program, out string, isModule bool, accepts func(src string) bool) bool {
+	if !hasString(c.Supported, "top-level-await") || in == nil || !isModule || !loweredFeatures(c)[jsref.FeatAsyncFunction] {
+		return false
+	}
+	if _, ok := in.Features[jsref.FeatTopLevelAwait]; !ok {
+		return false
+	}
+	src := out
+	repaired := map[int]bool{}
+	for i := 0; i < 200; i++ {
+		rep, err := jsref.Parse(src, jsref.Options{Module: true})
+		if err == nil {
+			if len(repaired) == 0 {
+				return false
+			}
+			top := 0
+			enclosingFunctionWalk(rep.Body, func(n, encl *jsref.Node) {
+				if n.Type == jsref.NAwait && repaired[n.Start] {
+					if encl == nil {
+						top++
+					}
+				}
+			})
+			return top == len(repaired) && len(overEdition(c, rep)) == 0 && accepts(src)
+		}
+		se, ok := err.(*jsref.SyntaxError)
+		if !ok {
+			return false
+		}
+		// the `yield` at or immediately before the offending offset
+		at := -1
+		for j := se.Offset; j >= 0 && j >= se.Offset-8; j-- {
+			if j+5 <= len(src) && src[j:j+5] == "yield" && !repaired[j] {
+				at = j
+				break
+			}
+		}
+		if at < 0 {
+			return false
+		}
+		src = src[:at] + "await" + src[at+5:]
+		repaired[at] = true
+	}
+	return false
+}
